@@ -243,6 +243,43 @@ def build(chk):
                 canary("canary", Q1[0] == Q0[0] + 1)
             chk.run("size(n=%d,neq=%d)/%s" % (n, neq, nm), one)
 
+        # local time steps (directives={'dtlocal': True}: dtloc is an array, one value per cell): the step solves the system
+        # with dt_i on every equation of cell i (statement: "for every field, mesh and dt")
+        for nm in ("implicit", "cranknicolson"):
+            rpl = {"fn": "implicit_clause", "args": {"integrator": nm, "n": n, "neq": neq, "clause": "local-dt"}}
+
+            def local(n=n, neq=neq, nm=nm, rp=rpl):
+                cls = mod.env.vars[nm]
+                rhs = LinearRHS(neq, n)
+                S = make_setup(chk, cls, neq=neq, n=n, rhs=rhs)
+                Qs = []
+                for q in range(neq):
+                    arr, xs = vec("Q%d" % q, n)
+                    Qs.append(xs)
+                    S["field"].attrs["data"][q] = arr
+                dtarr, dts = vec("dt", n)
+                for d in dts:
+                    assume(d > 0)
+                Q0 = [Qs[c % neq][c // neq] for c in range(rhs.dim)]
+                jc = JacobianContract(rhs)
+                it.contracts[QN_JAC] = jc
+                it.active_contracts.add(QN_JAC)
+                try:
+                    it.call(it.getattr(S["solver"], "step"), [S["field"], dtarr], {})
+                finally:
+                    it.active_contracts.discard(QN_JAC)
+                D1 = linsolve_facts()
+                Q1 = [T.treal(S["field"].attrs["data"][c % neq].at(c // neq)) for c in range(rhs.dim)]
+                AQ1, AQ0 = rhs.apply_list(Q1), rhs.apply_list(Q0)
+                for r in range(rhs.dim):
+                    d = dts[r // neq]
+                    if nm == "implicit":
+                        from_row("backward-euler-system[%d]" % r, Q1[r] - d * AQ1[r], Q0[r], D1[r], d, rp)
+                    else:
+                        from_row("crank-nicolson-system[%d]" % r, Q1[r] - d / 2 * AQ1[r], Q0[r] + d / 2 * AQ0[r], D1[r], d, rp)
+                canary("canary", Q1[0] == Q0[0] + 1)
+            chk.run("local-dt/size(n=%d,neq=%d)/%s" % (n, neq, nm), local)
+
         # inductive step of gear: from ANY state with a history satisfying the invariant (last = (Q_n - Q_{n-1})/dt for an
         # arbitrary previous state), one step satisfies the BDF2 recurrence and re-establishes the invariant
         rpg = {"fn": "implicit_clause", "args": {"integrator": "gear", "n": n, "neq": neq, "clause": "history"}}
